@@ -1042,6 +1042,9 @@ class Model:
         copy: bool = False,
         to_float32: bool = True,
     ):
+        # the argument is iterated more than once below, it may be a one-shot iterable
+        nodes_and_vars = list(nodes_and_vars)
+
         if grow:
             model = (
                 GraphBuilder(to_float32=to_float32).add(*nodes_and_vars).build_model()
